@@ -317,8 +317,25 @@ def r5(ctx):
         raise AnchorMissing('the labels field of the SequenceClassification input')
     segs = seq_of(ctx.facts, b, lab)
     opcall = nosite(sym(b, t.dest))
+    def as_label(e):
+        """the label of an operation is its discriminant: `op as i32`, or an exhaustive match that maps every variant to its own index"""
+        c = core(e)
+        if c == ITEM or (c[0] == 'discr' and c[1] == ITEM):
+            return True
+        from analysis.alts import flatten as _fl
+        adt = ctx.facts.adts.get('whitespace::Operation')
+        order = [v_['name'] for v_ in adt['variants']] if adt else []
+        seen = {}
+        for a_ in _fl(e):
+            names = [n_ for tt, n_ in a_.variants if core(tt) == ITEM or nosite(core(tt)) == ITEM]
+            val = core(a_.value)
+            if len(names) == 1 and len(names[0]) == 1 and val[0] == 'const' and len(val) > 2:
+                seen[list(names[0])[0]] = val[2]
+            else:
+                return False
+        return bool(order) and seen == {n_: i for i, n_ in enumerate(order)}
     ok = segs is not None and len(segs) == 3 and segs[0].kind == 'repeat' and segs[2].kind == 'repeat' and segs[1].kind == 'each' and not segs[1].conds and \
-        nosite(peel(segs[1].src, unwrap=True)) == opcall and (core(segs[1].elem) == ITEM or (core(segs[1].elem)[0] == 'discr' and core(segs[1].elem)[1] == ITEM))
+        nosite(peel(segs[1].src, unwrap=True)) == opcall and as_label(segs[1].elem)
     ctx.require(ok, b, 'label-sequence', 'labels = -1 x prefix ++ operations(input, target) ++ -1 x suffix on every path',
                 'labels are built as %s: they must be the operations of the (input, target) alignment, not a shortcut' % [repr(x)[:120] for x in segs or ()], t.span)
 
@@ -401,3 +418,28 @@ def r10(ctx):
                         n_, t.span['line']), t.span)
     if n < 3:
         raise AnchorMissing('pushes into the operation vector (found %d)' % n)
+
+
+@rule('C10', 'R-C10-11', 'T11 SIBLING (one unit: characters, not bytes)',
+      'operations() and repair() count and compare in Characters of CS::new(.., use_graphemes): the byte length of an argument (`from.len()`, '
+      '`to.len()`, `s.len()`) flows into nothing but capacity hints. A character pointer compared with a byte length agrees for ASCII and turns a '
+      'valid pair with one multi-byte character into an error')
+def r11(ctx):
+    from rules.common import length_consumers
+    n = 0
+    for fn in ('whitespace::operations', 'whitespace::repair'):
+        b = ctx.body(fn)
+        from rules.common import closures_in
+        for x in [b] + closures_in(ctx, b):
+            from rules.common import debug_only_blocks
+            dbg = debug_only_blocks(x)
+            for t in x.calls(r'(?<![A-Za-z])str::len$|(?<![A-Za-z])String::len$'):
+                if t.span.get('exp') or t.bb in dbg:
+                    continue      # (inside a macro / a debug assertion)
+                n += 1
+                cons = length_consumers(x, t)
+                ctx.require(not cons, x, 'byte-length|' + fn.rsplit('::', 1)[-1], '%s: the byte length taken at line %d only sizes a buffer' % (fn, t.span['line']),
+                            '%s: the BYTE length `%s` (line %d) is used in `%s` (line %d): positions and counts of this function are in characters' % (
+                                fn, show_in(x, sym(x, t.args[0]))[:30] + '.len()', t.span['line'],
+                                ((cons[0].callee_res() or '') if cons and cons[0].kind == 'call' else 'a comparison').rsplit('::', 1)[-1], cons[0].span['line'] if cons else 0), t.span)
+    ctx.ok(None, '%d byte-length reads in operations() / repair() inspected' % n)
